@@ -118,6 +118,37 @@ func (g *genCtx) path() string {
 
 const urlSafe = gen.AlphaNum + "-._~"
 
+// indexKey yields a key that addresses a field of an element of a slice of structs, in dot or
+// bracket notation, with indices that are fine, negative, huge, not numbers, missing or nested.
+func indexKey(r *gen.Rand) string {
+	idx := func() string {
+		return gen.Pick(r, []string{"0", "1", "2", "7", "-1", "-0", "-99999999999999999999", "99999999999", "4294967296", "9223372036854775807", "x", "",
+			"1e3", "0x1", " 1", "1.5", "00", "+1", itoa(r.Intn(40))})
+	}
+	field := gen.Pick(r, []string{"name", "qty", "tags", "nope", ""})
+	root := gen.Pick(r, []string{"items", "items", "items", "sub", "tags", "name"})
+	depth := 1 + r.PickW(6, 2, 1)
+	var sb strings.Builder
+	sb.WriteString(root)
+	dots := r.Bool()
+	for i := 0; i < depth; i++ {
+		if dots {
+			sb.WriteString("." + idx())
+		} else {
+			sb.WriteString("[" + idx() + "]")
+		}
+	}
+	switch {
+	case dots:
+		sb.WriteString("." + field)
+	case r.Chance(1, 8):
+		sb.WriteString("[" + field) // unbalanced
+	default:
+		sb.WriteString("[" + field + "]")
+	}
+	return sb.String()
+}
+
 // pctString yields a path/query component with literal, escaped, UTF-8 and broken escapes.
 func pctString(r *gen.Rand, n int) string {
 	var sb strings.Builder
@@ -152,6 +183,9 @@ func (g *genCtx) query(rid string, op int) string {
 			parts = append(parts, "tags[]="+r.Ident(1, 4), "tags[]="+r.Ident(1, 4))
 		case 4:
 			parts = append(parts, "f.a="+pctString(r, 4), "f[b]="+pctString(r, 4))
+			if r.Bool() {
+				parts = append(parts, indexKey(r)+"="+r.Ident(0, 4), indexKey(r)+"="+itoa(r.Intn(9)))
+			}
 		case 5:
 			parts = append(parts, "size="+gen.Pick(r, []string{"0", "1", "100", "1000", "1048576"}))
 		case 6:
@@ -376,7 +410,7 @@ func (g *genCtx) cookieHdr(q *rq) string {
 	for i := 0; i < n; i++ {
 		switch r.Intn(6) {
 		case 0:
-			p = append(p, "name="+r.Ident(0, 8))
+			p = append(p, "name="+r.Ident(0, 8), gen.Pick(r, []string{"n=1", indexKey(r) + "=x"}))
 		case 1:
 			p = append(p, r.Ident(1, 5)+"=\""+r.Ident(0, 6)+"\"")
 		case 2:
@@ -500,7 +534,7 @@ func (g *genCtx) formBody() []byte {
 		case 2:
 			p = append(p, "tags="+r.Ident(1, 4), "tags="+r.Ident(1, 4))
 		case 3:
-			p = append(p, gen.Pick(r, []string{"&", "=", "%", "a[b]=1", "a.b=2", "tags[]=x", "a[", "]=["}))
+			p = append(p, gen.Pick(r, []string{"&", "=", "%", "a[b]=1", "a.b=2", "tags[]=x", "a[", "]=["}), indexKey(r)+"="+r.Ident(0, 4))
 		default:
 			p = append(p, r.Ident(1, 5)+"="+pctString(r, r.Range(0, 10)))
 		}
@@ -526,7 +560,7 @@ func (g *genCtx) multipartBody() ([]byte, string) {
 			b.WriteString(gen.Pick(r, []string{"Content-Disposition: form-data\r\n\r\nx", "X: y\r\n\r\n", "\r\n", "Content-Disposition: form-data; name=\r\n\r\n",
 				"Content-Disposition: attachment; name=\"a\"\r\n\r\nv", "Content-Disposition: form-data; name=\"a\"; name=\"b\"\r\n\r\nv"}))
 		default:
-			fmt.Fprintf(&b, "Content-Disposition: form-data; name=%q\r\n\r\n%s", r.Ident(1, 5), r.Ident(0, 8))
+			fmt.Fprintf(&b, "Content-Disposition: form-data; name=%q\r\n\r\n%s", gen.Pick(r, []string{r.Ident(1, 5), indexKey(r)}), r.Ident(0, 8))
 		}
 		b.WriteString("\r\n")
 	}
@@ -683,6 +717,7 @@ func (g *genCtx) request(rid string) *rq {
 			return gen.Pick(r, []string{"http://ref.example/p?q=1", "/local", "", "javascript:alert(1)", "http://é/"})
 		}},
 		{"X-Name", func() string { return r.Ident(0, 8) }},
+		{"items." + gen.Pick(r, []string{"0", "-1", "99999999999", "x", "1.-1"}) + ".name", func() string { return r.Ident(0, 4) }},
 		{"X-N", func() string { return gen.Pick(r, []string{"1", "x", "-1", "99999999999"}) }},
 		{"Connection", func() string {
 			return gen.Pick(r, []string{"keep-alive", "close", "Keep-Alive", "upgrade", "close, keep-alive", ""})
